@@ -8,8 +8,11 @@
    retentions in old and new syntax, line text from the abstract line, a value spelling from a pool).
 3. harness/sch runs the real code: (a) route.parseMetric through the hook VerifParseMetricWith for
    every case, (b) a real grafanaNet route posting to httptest, bodies decoded (snappy + msgp),
-   (c) destination.ParseDataPoint + destination.Pickle and a real pickle-mode destination writing to a
-   loopback listener, frames decoded by CPython (tools/unpickle.py).
+   (c) destination.ParseDataPoint + destination.Pickle (every returned message is decoded as returned and
+   once more after all later Pickle calls: spec/SchemasPickleOwn.tla, an emitted message is immutable),
+   a real pickle-mode destination and three concurrent pickle-mode destinations behind one
+   send-all-match route writing to loopback listeners; names from 3 to 2048 bytes (PkLongLines);
+   frames decoded by CPython (tools/unpickle.py).
 4. every observed field is compared with TLC's expectation; values by float64 bit pattern.
 """
 import json, os, random, struct, sys
@@ -76,17 +79,19 @@ def run(ctx):
     gens = [dict(MaxSpecific=2, PatPool=pool, Dev="none")]
     if not q:
         gens.append(dict(MaxSpecific=3, PatPool={1, 5, 6}, Dev="none"))      # 4-rule lists
-    lines, cases, seen = None, [], set()
+    lines, longlines, cases, seen = None, None, [], set()
     for g in gens:
         res = ctx.tlc("Schemas", "Schemas_gen.cfg", consts=g, workers=1, timeout=3000, heap="8g")
         for s in ctx.tlc_printed(res, "@@L"):
             lines = json.loads(s)
+        for s in ctx.tlc_printed(res, "@@PL"):
+            longlines = json.loads(s)
         for s in ctx.tlc_printed(res, "@@C"):
             if s in seen:
                 continue
             seen.add(s)
             cases.append(json.loads(s))
-    if not lines or len(cases) < 100:
+    if not lines or not longlines or len(cases) < 100:
         raise Machinery("TLC generated no cases; log %s" % res["log"])
     ctx.log("TLC enumerated %d rule lists x %d line classes" % (len(cases), len(lines)))
     devs = ["always_semicolon", "prio_reversed", "tags_unsorted"] if q else list(DEVS)
@@ -97,6 +102,13 @@ def run(ctx):
         if r["violated"] != DEVS[dev]:
             raise Machinery("deviation %s is not rejected by %s (violated=%s; vacuity); log %s" % (dev, DEVS[dev], r["violated"], r["log"]))
         rejected[dev] = r["violated"]
+    # ownership clause of the pickle encoder: an emitted message is immutable
+    ctx.tlc("SchemasPickleOwn", "SchemasPickleOwn.cfg", consts=dict(K=ctx.pick(3, 5), Dev="none"), workers=2, timeout=600)
+    r = ctx.tlc("SchemasPickleOwn", "SchemasPickleOwn.cfg", consts=dict(K=3, Dev="pooled_buffer_reuse"), workers=2,
+                expect_ok=False, count=False, timeout=600)
+    if r["violated"] != "EmittedImmutable":
+        raise Machinery("deviation pooled_buffer_reuse is not rejected by EmittedImmutable (violated=%s); log %s" % (r["violated"], r["log"]))
+    rejected["pooled_buffer_reuse"] = r["violated"]
     ctx.cov["deviations_rejected"] = rejected
 
     # ---------------------------------------------------------------- 2. concretise
@@ -222,16 +234,29 @@ def run(ctx):
             tok = s_(ln["line"]["name"]) + "".join(";" + s_(t) for t in ln["line"]["tags"])
             v, ts = rand_value(k), rand_ts(ln["line"]["ts"], k)
             plines.append(dict(text="%s %s %s" % (tok, v, ts), v=v, ts=ts, tok=tok, i=i))
+    # long names (TLC: PkLongLines): the same encoder contract whatever the size of the name
+    nshort = len(plines)
+    for i, ln in enumerate(longlines):
+        for k in range(ctx.pick(4, 40)):
+            tok = s_(ln["line"]["name"]) + "".join(";" + s_(t) for t in ln["line"]["tags"])
+            v, ts = rand_value(k * 7 + i), rand_ts(ln["line"]["ts"], k + i)
+            plines.append(dict(text="%s %s %s" % (tok, v, ts), v=v, ts=ts, tok=tok, i=i, long=True))
     rng.shuffle(plines)
+    # end to end: (0) one pickle destination; (1) three pickle destinations behind one send-all-match route, each
+    # with its own subset of the lines (by name prefix), its own connection writer and I/O buffer
+    scen = [dict(s=0, dests=[dict(prefix="", notprefix="", iobuf=4096, flushms=20)]),
+            dict(s=1, dests=[dict(prefix="", notprefix="", iobuf=65536, flushms=5),
+                             dict(prefix="foo", notprefix="foob", iobuf=300, flushms=1),
+                             dict(prefix="", notprefix="foo.", iobuf=7, flushms=2)])]
     pf = os.path.join(ctx.out, "c16_pk_lines.json")
-    json.dump(dict(lines=[p["text"] for p in plines]), open(pf, "w"))
+    json.dump(dict(lines=[p["text"] for p in plines], scen=scen), open(pf, "w"))
     ptf = os.path.join(ctx.out, "c16_pk_trace.ndjson")
     ctx.go_test("sch", run="^TestPickle$", timeout=900, env=dict(VERIF_PK_LINES=pf, VERIF_PK_TRACE=ptf))
     precs = ctx.read_ndjson(ptf)
     npk = 0
 
     def pk_expect(p):
-        e = lines[p["i"]]["pk"]
+        e = (longlines if p.get("long") else lines)[p["i"]]["pk"]
         if e["skipped"]:
             return None
         assert s_(e["name"]) == p["tok"]
@@ -240,53 +265,96 @@ def run(ctx):
     def check_point(where, p, d):
         exp = pk_expect(p)
         if not d.get("ok") or len(d["points"]) != 1:
-            ctx.violation("pickle-shape " + where, "frame for %r does not unpickle to [(name, (ts, value))]: %s" % (p["text"], d.get("shape", d)), dict(line=p["text"]))
-            return
+            ctx.violation("pickle-shape " + where, "frame for %r does not unpickle to [(name, (ts, value))]: %s" % (
+                p["text"][:120], str(d.get("shape", d))[:300]), dict(line=p["text"]))
+            return False
         pt = d["points"][0]
+        ok = True
         for f in ("name", "ts", "vbits"):
             if pt[f] != exp[f]:
-                ctx.violation("pickle-%s %s" % (f, where), "line %r unpickles with %s = %r, expected %r" % (p["text"], f, pt[f], exp[f]),
-                              dict(line=p["text"], got=pt, expect=exp))
+                ctx.violation("pickle-%s %s" % (f, where), "line %r unpickles with %s = %r, expected %r" % (
+                    p["text"][:120], f, str(pt[f])[:120], str(exp[f])[:120]), dict(line=p["text"], got=pt, expect=exp))
+                ok = False
         if pt["ts_type"] != "int" or pt["val_type"] != "float":
             ctx.violation("pickle-types " + where, "line %r unpickles with types (%s, %s), expected (int, float)" % (
-                p["text"], pt["ts_type"], pt["val_type"]), dict(line=p["text"], got=pt))
+                p["text"][:120], pt["ts_type"], pt["val_type"]), dict(line=p["text"], got=pt))
+            ok = False
+        return ok
 
+    def ts_class(p):
+        return (longlines if p.get("long") else lines)[p["i"]]["line"]["ts"]
+
+    def size_class(p):
+        return "long-name" if p.get("long") else "short-name"
+
+    def expected_for(dst):
+        return [i for i, p in enumerate(plines) if p["tok"].startswith(dst["prefix"])
+                and not (dst["notprefix"] and p["tok"].startswith(dst["notprefix"]))]
+
+    nkept = nwire_multi = 0
     for r in precs:
-        if r["ev"] == "pk":
+        if r["ev"] == "wireerr":
+            raise Machinery("pickle destination scenario %s could not be set up: %s" % (r["s"], r["err"]))
+        if r["ev"] in ("pk", "pk2"):
+            # pk: the message as returned by Pickle; pk2: the same message, looked at after all later Pickle calls
             p = plines[r["i"]]
             exp = pk_expect(p)
+            where = "encoder" if r["ev"] == "pk" else "encoder-message-kept"
+            if r["ev"] == "pk2":
+                nkept += 1
             npk += 1
             if exp is None:
                 if not r["skipped"]:
-                    ctx.violation("pickle-unrepresentable-emitted ts=%s" % lines[p["i"]]["line"]["ts"],
+                    ctx.violation("pickle-unrepresentable-emitted ts=%s" % ts_class(p),
                                   "a frame was produced for %r whose timestamp cannot be represented" % p["text"], dict(line=p["text"]))
                 continue
-            if r["skipped"]:
+            if r.get("skipped"):
                 ctx.violation("pickle-valid-line-skipped", "no frame for the valid line %r: %s" % (p["text"], r.get("err")), dict(line=p["text"]))
                 continue
             res_, rest = unpickle.decode_stream(bytes.fromhex(r["frame"]))
             if rest or len(res_) != 1:
-                ctx.violation("pickle-framing encoder", "Pickle(%r) is not one length-prefixed frame" % p["text"], dict(line=p["text"]))
+                ctx.violation("pickle-framing %s %s" % (where, size_class(p)), "Pickle(%r)%s is not one length-prefixed frame (prefix %s, %d bytes)" % (
+                    p["text"][:120], "" if r["ev"] == "pk" else ", read after the following Pickle calls,", r["frame"][:8], len(r["frame"]) // 2),
+                    dict(line=p["text"], frame=r["frame"][:400]))
                 continue
-            check_point("encoder", p, res_[0])
+            check_point("%s %s" % (where, size_class(p)), p, res_[0])
         elif r["ev"] == "wire":
-            if not r["online"] or not r["complete"] or r["slow_conn"] or r["conn_down"]:
-                raise Machinery("pickle destination run is not conclusive: %s" % {k: v for k, v in r.items() if k != "wire"})
+            dst = scen[r["s"]]["dests"][r["k"]]
+            where = "wire" if r["ndests"] == 1 else "wire-%d-destinations" % r["ndests"]
+            want = expected_for(dst)
+            if r["online"] and r["sent"] != want:
+                raise Machinery("scenario %d destination %d: the route handed over %d lines, %d have the destination's prefix" % (
+                    r["s"], r["k"], len(r["sent"]), len(want)))
+            if not r["online"] or r["slow_conn"] or r["conn_down"]:
+                raise Machinery("pickle destination run is not conclusive: %s" % {k: v for k, v in r.items() if k not in ("wire", "sent")})
             res_, rest = unpickle.decode_stream(bytes.fromhex(r["wire"]))
-            nbad = sum(1 for p in plines if pk_expect(p) is None)
+            sentp = [plines[i] for i in want]
+            good = [p for p in sentp if pk_expect(p) is not None]
+            nbad = len(sentp) - len(good)
             if r["bad_pickle"] != nbad:
                 ctx.violation("bad_pickle-counter", "bad_pickle counted %d lines, %d of the %d lines sent cannot be represented" % (
-                    r["bad_pickle"], nbad, r["sent"]), dict(counter=r["bad_pickle"], expected=nbad))
+                    r["bad_pickle"], nbad, len(sentp)), dict(counter=r["bad_pickle"], expected=nbad))
+            # one connection, one writer: frames arrive in hand-over order (C05); compare pairwise up to the first
+            # frame that is not the expected one (after a wrong length prefix nothing behind it is meaningful)
+            broken = False
+            for p, d in zip(good, res_):
+                if not check_point("%s %s" % (where, size_class(p)), p, d):
+                    broken = True
+                    break
+                npk += 1
+                if r["ndests"] > 1:
+                    nwire_multi += 1
+            if broken:
+                continue
+            if not r["complete"]:
+                raise Machinery("pickle destination run is not conclusive (%d of %d frames, all as expected so far): %s" % (
+                    len(res_), len(good), {k: v for k, v in r.items() if k not in ("wire", "sent")}))
             if rest:
-                ctx.violation("pickle-framing wire", "%d trailing bytes after the last complete frame" % rest, None)
-            good = [p for p in plines if pk_expect(p) is not None]
-            if len(res_) != len(good):
-                ctx.violation("pickle-wire-count", "%d frames on the wire for %d representable lines" % (len(res_), len(good)), None)
-            else:
-                # one connection, one writer: frames arrive in hand-over order (C05); compare pairwise
-                for p, d in zip(good, res_):
-                    check_point("wire", p, d)
-                    npk += 1
+                ctx.violation("pickle-framing " + where, "%d trailing bytes after the last complete frame" % rest, None)
+            elif len(res_) != len(good):
+                ctx.violation("pickle-wire-count " + where, "%d frames on the wire for %d representable lines" % (len(res_), len(good)), None)
+    if nkept == 0 or nwire_multi == 0:
+        raise Machinery("dead pickle driver: %d kept messages, %d frames from concurrent destinations" % (nkept, nwire_multi))
     if npk == 0:
         raise Machinery("dead pickle driver")
 
@@ -297,12 +365,17 @@ def run(ctx):
     cov["parseMetric_records"] = npm
     cov["grafanaNet_records"] = ngn
     cov["pickle_points"] = npk
+    cov["pickle_messages_reread_after_later_calls"] = nkept
+    cov["pickle_frames_from_concurrent_destinations"] = nwire_multi
+    cov["pickle_long_name_lines"] = len(plines) - nshort
     cov["rule"] = ("cases = every storage-schemas rule list enumerated by TLC (default rule at any position with/without "
                    "priority + <= 2 rules from %d patterns x 3 priorities (thorough: also <= 3 rules from 3 patterns); retentions in old and new syntax) x %d line classes "
                    "(3 names x 5 tag lists incl. unsorted, 3 invalid-tag lists, 3 unrepresentable timestamp classes); "
                    "distinct_nontrivial = distinct (rule list with >= 2 rules, representable line) pairs whose MetricData was "
-                   "compared field by field with TLC's expectation; pickle: %d lines (line classes x value spellings x timestamps)"
-                   % (len(pool), len(lines), len(plines)))
+                   "compared field by field with TLC's expectation; pickle: %d lines (line classes x value spellings x timestamps, "
+                   "of which %d with names of 120..2048 bytes), each through Pickle() (decoded as returned and again after all "
+                   "later calls), one pickle destination, and 3 concurrent pickle destinations (iobuf 65536/300/7) of one route"
+                   % (len(pool), len(lines), len(plines), len(plines) - nshort))
     ctx.sample(dict(schemas=conc[len(conc) // 2]["schemas"], lines=conc[len(conc) // 2]["lines"][:3],
                     expect=[cases[len(conc) // 2]["md"][i] for i in range(3)]))
     ctx.sample(dict(pickle_line=plines[0]["text"], expect=pk_expect(plines[0]) or "skipped, counted bad_pickle"))
